@@ -13,7 +13,8 @@
    the code (C03_own_token_refuted, finding F18). *)
 From Coq Require Import ZArith List Bool Arith.
 From GoCoap Require Import Base.Interleave Observe.Model Token.Model Token.Spec Token.Proofs
-  Token.BwModel Token.BwSpec Token.BwProofs Token.WriterModel Token.WriterProofs.
+  Token.BwModel Token.BwSpec Token.BwProofs Token.WriterModel Token.WriterProofs
+  Token.DedupModel Token.DedupSpec Token.DedupProofs.
 Import ListNotations.
 Local Open Scope nat_scope.
 
@@ -301,4 +302,128 @@ Proof.
       repeat (destruct Hc as [Hc|Hc]; [inversion Hc; subst; first [reflexivity|discriminate E]|]); contradiction|]).
     contradiction.
   - vm_compute. repeat split; auto 20.
+Qed.
+
+(* ================= retransmitted responses and the message-ID layer (Token/DedupModel.v) =================
+   On a datagram connection handleReq stands in front of the token table: the peer's CON / NON messages are
+   serialised per message ID, looked up in the response cache (found: the cached reply is sent again, the message is
+   not handled), otherwise handled (= the receive program of Token/Model.v) and a confirmable message nobody
+   answered is acknowledged, the acknowledgement cached under its message ID. [drun hash progs sched]: any number
+   of caller threads ([DCall], any tokens, re-used or not), any number of receive threads ([DRecv del m]: any type,
+   message ID, response; copies), cache expirations ([DExpire mid]); all schedules. *)
+Notation dhist c := (rhist dst dop dloc dres c).
+
+(* a successful call returns a response with its own token *)
+Theorem C03_dedup_own_token : forall hash progs sched,
+  hash_inj_on hash (dall_toks progs) ->
+  forall t n cid tok m r,
+    In (ERes t n (DCall cid tok m) (DRet (ROk r))) (dhist (drun hash progs sched)) -> r_tok r = tok.
+Proof. intros hash progs sched H. exact (d_own_token_holds hash progs sched H). Qed.
+Print Assumptions C03_dedup_own_token.
+
+(* "A response is never delivered ... to two callers", for a response the peer retransmits: if every copy of
+   response instance i is a confirmable message with message ID x and no cache entry of x expires (the copies arrive
+   within EXCHANGE_LIFETIME), then i is returned by at most one call -- however many copies arrive, whenever (also
+   after the request they answer has completed and while a later request with the same token is outstanding), on
+   however many receive loops. No hypothesis on tokens or on Token.Hash.
+   The full statement -- for every duplicated response, whatever its type -- is false of the code
+   (C03_dedup_non_confirmable_duplicate_refuted): hence "_partial". *)
+Theorem C03_dedup_at_most_one_partial : forall hash progs sched i x,
+  retransmitted_with progs i x -> within_lifetime progs x ->
+  forall t n cid tok m r t' n' cid' tok' m' r',
+    In (ERes t n (DCall cid tok m) (DRet (ROk r))) (dhist (drun hash progs sched)) ->
+    In (ERes t' n' (DCall cid' tok' m') (DRet (ROk r'))) (dhist (drun hash progs sched)) ->
+    r_id r = i -> r_id r' = i ->
+    ERes t n (DCall cid tok m) (DRet (ROk r)) = ERes t' n' (DCall cid' tok' m') (DRet (ROk r')).
+Proof. intros hash progs sched i x Hc Hl. exact (dedup_at_most_one hash progs sched i x Hc Hl). Qed.
+Print Assumptions C03_dedup_at_most_one_partial.
+
+(* "... returns the content the peer produced for that request", with re-used tokens: once a request has been
+   answered with the response produced for it, no other call -- in particular no later request with the same
+   token -- returns content produced for that request (the peer produces one response per request and retransmits it) *)
+Theorem C03_dedup_answered_content_not_returned_again : forall hash progs sched t n cid tok m r t' n' cid' tok' m' r' x,
+  one_response_per_request progs ->
+  retransmitted_with progs (r_id r) x -> within_lifetime progs x ->
+  In (ERes t n (DCall cid tok m) (DRet (ROk r))) (dhist (drun hash progs sched)) ->
+  In (ERes t' n' (DCall cid' tok' m') (DRet (ROk r'))) (dhist (drun hash progs sched)) ->
+  r_for r' = r_for r ->
+  ERes t n (DCall cid tok m) (DRet (ROk r)) = ERes t' n' (DCall cid' tok' m') (DRet (ROk r')).
+Proof. exact answered_content_not_returned_again. Qed.
+Print Assumptions C03_dedup_answered_content_not_returned_again.
+
+(* a copy whose message ID has a cached reply ends "answered from the cache": token table, channels and cache unchanged *)
+Theorem C03_dedup_duplicate_not_handled : forall hash (c : dconfig) t th del m,
+  nth_error (threads dst dop dloc dres c) t = Some th ->
+  cur dop dloc dres th = Running (DRecv del m) DCheck ->
+  zmem (m_mid m) (cache (shared dst dop dloc dres c)) = true ->
+  tok_st (shared dst dop dloc dres (dstep hash c t)) = tok_st (shared dst dop dloc dres c) /\
+  cache (shared dst dop dloc dres (dstep hash c t)) = cache (shared dst dop dloc dres c) /\
+  nth_error (threads dst dop dloc dres (dstep hash c t)) t =
+    Some (mkT dop dloc dres (todo dop dloc dres th) (Finished (DRecv del m) DDup) (idx dop dloc dres th)).
+Proof. exact duplicate_not_handled_step. Qed.
+Print Assumptions C03_dedup_duplicate_not_handled.
+
+(* the instance: two requests with token 5401 one after the other, separate confirmable responses 7001 / 7002, the
+   first one retransmitted while the second request is outstanding. On the machine of the code the copy is answered
+   from the cache and call 1 returns response 2 ... *)
+Theorem C03_dedup_retransmission_not_returned :
+  let h := dhist (drun crc64 (reuse_progs TCon) reuse_sched) in
+  ret_of_call 0 h = [mkR 1 tokR 0] /\ ret_of_call 1 h = [mkR 2 tokR 1] /\
+  In (ERes 1 1 (DRecv true (mkM TCon 7001 (mkR 1 tokR 0))) DDup) h.
+Proof. exact retransmission_not_returned. Qed.
+Print Assumptions C03_dedup_retransmission_not_returned.
+
+(* ... with the cache by-passed when a request waits for the token of the message (dact_bypass), the same programs
+   and schedule end with call 1 returning the content produced for call 0: response 1 is returned by two calls *)
+Theorem C03_dedup_bypass_refuted :
+  retransmitted_with (reuse_progs TCon) 1 7001 /\ within_lifetime (reuse_progs TCon) 7001 /\
+  let h := dhist (drun_bypass crc64 (reuse_progs TCon) reuse_sched) in
+  ret_of_call 0 h = [mkR 1 tokR 0] /\ ret_of_call 1 h = [mkR 1 tokR 0] /\ ~ d_at_most_one 1 h.
+Proof. exact bypass_refuted. Qed.
+Print Assumptions C03_dedup_bypass_refuted.
+
+(* ... and on the machine of the code with NON-confirmable copies (nothing is cached for a non-confirmable message
+   nobody answered) the second copy is handled like a new message: known finding, class 12 *)
+Theorem C03_dedup_non_confirmable_duplicate_refuted :
+  let h := dhist (drun crc64 (reuse_progs TNon) reuse_sched) in
+  ret_of_call 0 h = [mkR 1 tokR 0] /\ ret_of_call 1 h = [mkR 1 tokR 0] /\ ~ d_at_most_one 1 h.
+Proof. exact non_confirmable_duplicate_refuted. Qed.
+Print Assumptions C03_dedup_non_confirmable_duplicate_refuted.
+
+(* once the cached acknowledgement has expired the message ID is fresh: a new response carrying it is handled *)
+Theorem C03_dedup_expired_id_is_fresh :
+  let h := dhist (drun crc64 expire_progs expire_sched) in
+  ret_of_call 0 h = [mkR 1 tokR 0] /\ ret_of_call 1 h = [mkR 2 tokR 1].
+Proof. exact expired_id_is_fresh. Qed.
+Print Assumptions C03_dedup_expired_id_is_fresh.
+
+(* ---- the hypotheses are satisfiable by a non-trivial instance: the programs above satisfy every hypothesis of
+   the three theorems (injective hashing, one response per request, every response retransmitted as a confirmable
+   message with one message ID, nothing expires) ---- *)
+Example C03_dedup_hypotheses_satisfiable :
+  hash_inj_on crc64 (dall_toks (reuse_progs TCon)) /\ one_response_per_request (reuse_progs TCon) /\
+  retransmitted_with (reuse_progs TCon) 1 7001 /\ retransmitted_with (reuse_progs TCon) 2 7002 /\
+  within_lifetime (reuse_progs TCon) 7001 /\ within_lifetime (reuse_progs TCon) 7002 /\
+  length (dhist (drun crc64 (reuse_progs TCon) reuse_sched)) = 10.
+Proof.
+  assert (Hrt1 : retransmitted_with (reuse_progs TCon) 1 7001).
+  { intros del m H E. cbn in H.
+    repeat (destruct H as [H|H]; [try discriminate H; inversion H; subst; cbn in E; try discriminate E; auto|]); contradiction. }
+  assert (Hrt2 : retransmitted_with (reuse_progs TCon) 2 7002).
+  { intros del m H E. cbn in H.
+    repeat (destruct H as [H|H]; [try discriminate H; inversion H; subst; cbn in E; try discriminate E; auto|]); contradiction. }
+  assert (Hwl : forall x, within_lifetime (reuse_progs TCon) x).
+  { intros x H. cbn in H. repeat (destruct H as [H|H]; [discriminate H|]). contradiction. }
+  split.
+  { intros a b Ha Hb. cbn in Ha, Hb.
+    repeat (destruct Ha as [<-|Ha]; [repeat (destruct Hb as [<-|Hb]; [intros _; reflexivity|]); contradiction|]).
+    contradiction. }
+  split.
+  { intros del m del' m' H H' E. cbn in H, H'.
+    repeat (destruct H as [H|H]; [try discriminate H; inversion H; subst; clear H;
+      repeat (destruct H' as [H'|H']; [try discriminate H'; inversion H'; subst; cbn in E |- *; first [reflexivity|discriminate E]|]);
+      contradiction|]).
+    contradiction. }
+  split; [exact Hrt1|]. split; [exact Hrt2|]. split; [apply Hwl|]. split; [apply Hwl|].
+  vm_compute. reflexivity.
 Qed.
